@@ -21,9 +21,21 @@ assumed but read from the call sites by the translator (`context_free_paths`).  
 share a name (`name~2.html`): the page file name of an abstract entity is the identifier FORD gave to the
 object at that position.  For every (context kind, parent kind) a context with a shadowed name next to it
 is added and asked for exactly those names (`shadowed_near`).
+
+Round 3: the *recognition* of a reference in a text (the pattern `FordLinkProcessor.LINK_RE` and the inline
+loop) is part of the model (lean/FordModel/LinkSyntax.lean) and of the correspondence:
+  syntax : the real `LINK_RE` (finditer) vs the model's tokenizer on random strings over the alphabet of the
+           pattern and on mutated references; oracle: every documented spelling must be matched as written.
+           The character class `\\w` of the model is compared with Python's for every code point it covers.
+  conv   : besides the parsed references (`Q`), whole texts with several references, adjacent brackets and
+           surrounding words (`T`) are converted by the real Markdown object and by the model's `convertText`.
+Source files get *file* names (leading digit / underscore, capitals, letters outside ASCII, hyphen, several
+dots; an `extra_filetypes` file), entity names carry underscores, absent names may start with a digit.
+A plain-text rendering must come with a warning (captured from FORD's console).
 """
 from __future__ import annotations
 
+import html as htmllib
 import os
 import random
 import re
@@ -94,7 +106,7 @@ def locate(project, P):
 
     for e in P["ents"]:
         if e["kind"] == "file":
-            out[e["id"]] = by_name(list(project.files), e["name"])
+            out[e["id"]] = by_name(list(project.files) + list(getattr(project, "extra_files", [])), e["name"])
             continue
         if e["kind"] == "namelist":
             out[e["id"]] = by_name(project.namelists, e["name"])
@@ -213,20 +225,62 @@ def classify_exc(e: BaseException) -> str:
     return f"{type(e).__name__}:{s[:80]}"
 
 
-def impl_convert(md, text, ctx, path, reset=True):
-    """-> ('L', text, href) | ('T', text) | ('X', kind) | ('?', html)"""
-    try:
-        with common.quiet():
+def impl_convert_raw(md, text, ctx, path, reset=True):
+    """-> (html | None, exception kind | None, what FORD printed)"""
+    with common.quiet() as buf:
+        try:
             html = (md.reset() if reset else md).convert(text, context=ctx, path=path)
-    except Exception as e:  # noqa
-        return ("X", classify_exc(e))
+        except Exception as e:  # noqa
+            return None, classify_exc(e), buf.getvalue()
+    return html, None, buf.getvalue()
+
+
+def impl_convert(md, text, ctx, path, reset=True, log=None):
+    """-> ('L', text, href) | ('T', text) | ('X', kind) | ('V',) reference left verbatim | ('?', html);
+    what FORD printed meanwhile is appended to the list `log`"""
+    html, exc, printed = impl_convert_raw(md, text, ctx, path, reset)
+    if log is not None:
+        log.append(printed)
+    if exc is not None:
+        return ("X", exc)
     m = A_RE.findall(html)
     if len(m) != 1:
+        if html == f"<p>{htmllib.escape(text, quote=False)}</p>":
+            return ("V",)
         return ("?", html)
     href, t = m[0]
     if href == "" and 'href=""' not in html:
         return ("T", t)
     return ("L", t, href)
+
+
+def html_segments(html):
+    """the converted text cut at the <a> elements: [('P', text) | ('L', text, href) | ('T', text)], or None
+    when the html is not one paragraph of text and <a> elements"""
+    if not (html.startswith("<p>") and html.endswith("</p>")):
+        return None
+    body = html[3:-4]
+    out, pos = [], 0
+    for m in A_RE.finditer(body):
+        if m.start() > pos:
+            out.append(("P", body[pos:m.start()]))
+        href, t = m.group(1), m.group(2)
+        out.append(("T", htmllib.unescape(t)) if href is None else ("L", htmllib.unescape(t), href))
+        pos = m.end()
+    if pos < len(body):
+        out.append(("P", body[pos:]))
+    if any(seg[0] == "P" and ("<" in seg[1] or ">" in seg[1]) for seg in out):
+        return None
+    return [("P", htmllib.unescape(x[1])) if x[0] == "P" else x for x in out]
+
+
+def squash(s):
+    return re.sub(r"\s+", "", s)
+
+
+def warned_about(log, name):
+    """FORD printed a warning that names the reference (rich wraps long lines at blanks)"""
+    return log is not None and "Warning" in log and squash(name) in squash(log)
 
 
 # ----------------------------------------------------------------------------- oracle helpers
@@ -258,8 +312,16 @@ def in_local_type(e):
     return False
 
 
-def check_oracle(P, out, ctx_abs, loc, ref, im):
-    """None when the real output is what the documented rules give, else a reason."""
+def check_oracle(P, out, ctx_abs, loc, ref, im, log=None):
+    """None when the real output is what the documented rules give, else a reason.
+    `log` (when given): what FORD printed during the conversion - a plain-text rendering needs a warning."""
+    verdict, why = _check_oracle(P, out, ctx_abs, loc, ref, im)
+    if verdict == "ok" and im[0] == "T" and log is not None and not warned_about(log, ref[0]):
+        return "fail", f"rendered as plain text {im[1]!r} without a warning that names it (printed: {log[:120]!r})"
+    return verdict, why
+
+
+def _check_oracle(P, out, ctx_abs, loc, ref, im):
     s = G.spec(P, ctx_abs, ref)
     if s[0] == "unspecified":
         return "skip", None
@@ -271,6 +333,9 @@ def check_oracle(P, out, ctx_abs, loc, ref, im):
         return "fail", f"conversion raised {im[1]}"
     if im[0] == "?":
         return "fail", f"unexpected html {im[1][:120]!r}"
+    if im[0] == "V":
+        return "fail", "the reference was not recognised: it is left verbatim in the text" + \
+            (" (a link is due)" if s[0] == "link" else " (plain text with a warning is due)")
     if s[0] == "text":
         if im[0] == "T" and im[1] == ref[0]:
             return "ok", None
@@ -332,10 +397,22 @@ for _k in ("variable", "bound", "final"):
     CAN_CONTAIN[_k] = set()
 
 
+NAME_SHAPE = {"seps": ["."], "many": False}     # the `name` group of LINK_RE as the translator read it (set in run())
+
+
+def name_in_pattern(name):
+    """the component name has the shape LINK_RE's `name` group accepts: runs of word characters joined by
+    single separator characters (one separator at most unless the group repeats)"""
+    seps = "".join(re.escape(c) for c in NAME_SHAPE["seps"])
+    return re.fullmatch(r"\w+(?:[" + seps + r"]\w+)" + ("*" if NAME_SHAPE["many"] else "?"), name) is not None
+
+
 def classify(P, ctx_abs, what, url_set, ref):
     """Known defect classes, decided from the input alone (never from the failure).
     `what`: "entity" | "projfile" | "summary" | "page"; `url_set`: the option `project_url` is given."""
     name, kind, child, ckind = ref
+    if not name_in_pattern(name):
+        return "C11-file-name-outside-link-pattern"
     if (kind or "").lower() == "constructor" or (ckind or "").lower() == "constructor":
         return "C11-constructor-qualifier-raises"
     for b, t in G.bindings_to_hidden(P):
@@ -417,6 +494,121 @@ def shadowed_near(P, ctx_abs):
     return out
 
 
+def name_shape(n):
+    """coarse class of a component name (histogram)"""
+    if not name_in_pattern(n):
+        return "outside the pattern (hyphen / several dots)"
+    out = []
+    if n[0].isdigit():
+        out.append("digit first")
+    elif n[0] == "_":
+        out.append("underscore first")
+    if "." in n:
+        out.append("stem.ext")
+    if "_" in n[1:]:
+        out.append("underscore")
+    if any(ord(c) > 127 for c in n):
+        out.append("non-ascii")
+    return ", ".join(out) or "letters/digits"
+
+
+def absent_name(rng, item=False):
+    """a name nothing in a generated project carries, in every shape a component name may have: a Fortran
+    name, digits first (`[[1]]`, `[[2nd_pass]]`), underscores, `stem.ext` of a file that is not there
+    (`item`: a name for the item part - no extension)"""
+    n = str(rng.randint(1, 99))
+    words = ["nosuch" + n, "nosuch" + n, n, n + "nd_pass", "_nosuch" + n, "no_such_" + n, "nosuch" + n + "_",
+             "NoSuch" + n, "nosuch\u00e9" + n]
+    return rng.choice(words if item else words + ["nosuch" + n + ".f90", n + "nosuch.f90"])
+
+
+# ----------------------------------------------------------------------------- texts with several references
+
+PRE = ["", "", "see ", "x", "[", "[[", "a, ", "(", "cf: ", "v1.", "the mesh of ", "]] ", "1:"]
+MID = [" ", " and ", ", ", "", ") (", " / ", "] [", ": ", " - see also "]
+POST = ["", "", " end.", "y", "]", "]]", ")", ": x", ",", ".", " (twice)"]
+SAFE = [" ", " and ", ", "]
+JUNK = ["[[ {n} ]]", "[[{n} {n}]]", "[[]]", "[[{n}:]]", "[[{n}()]]", "[[{n}.]]", "[[.{n}]]", "[{n}]]", "[[{n}]",
+        "[[{n}(module):]]", "[[{n}:{n}()]]", "[[{n}(module)x]]", "[[{n}::{n}]]", "[[{n}(module)(type)]]", "[[({n})]]"]
+
+
+def gen_text(rng, refs):
+    """a one-line documentation text: 1-3 references (`refs`: candidates) in running text, sometimes next to
+    single brackets or to something that only looks like a reference.
+    -> [("words", s) | ("ref", r, tclass) | ("junk", s)]"""
+    parts = []
+    pre = rng.choice(PRE)
+    if pre:
+        parts.append(("words", pre))
+    n = rng.choice([1, 1, 2, 2, 3])
+    for i in range(n):
+        if i:
+            parts.append(("words", rng.choice(MID)))
+        if rng.random() < 0.15:
+            r0 = rng.choice(refs)[0]
+            parts.append(("words", rng.choice(SAFE)))     # blanks around: it cannot combine with its neighbours
+            parts.append(("junk", rng.choice(JUNK).replace("{n}", r0[0])))
+            parts.append(("words", rng.choice(SAFE)))
+        r, tclass = rng.choice(refs)
+        parts.append(("ref", r, tclass))
+    post = rng.choice(POST)
+    if post:
+        parts.append(("words", post))
+    # Markdown strips the paragraph
+    while parts and parts[0][0] == "words" and not parts[0][1].strip():
+        parts.pop(0)
+    while parts and parts[-1][0] == "words" and not parts[-1][1].strip():
+        parts.pop()
+    if parts[0][0] == "words":
+        parts[0] = ("words", parts[0][1].lstrip())
+    if parts[-1][0] == "words":
+        parts[-1] = ("words", parts[-1][1].rstrip())
+    return [p for p in parts if p[0] != "words" or p[1]]
+
+
+def render_text(parts):
+    return "".join(G.render_ref(p[1]) if p[0] == "ref" else p[1] for p in parts)
+
+
+A_PAT = r'<a(?: href="([^"]*)")?>([^<]*)</a>'
+
+
+def check_text_oracle(P, out, ctx_abs, loc, parts, html, exc, log):
+    """The property on a whole text: every documented reference becomes what the documented lookup gives
+    (link / plain name with a warning), in the order written, and the words around stay.
+    -> [(reason, reference for the classification)]"""
+    refs = [p[1] for p in parts if p[0] == "ref"]
+    judged = [r for r in refs if G.spec(P, ctx_abs, r)[0] != "unspecified"]
+    if exc is not None:
+        return [(f"conversion raised {exc}", r) for r in (judged[:1] or refs[:1])] if judged else []
+    if not (html.startswith("<p>") and html.endswith("</p>")):
+        return [(f"unexpected html {html[:120]!r}", r) for r in judged[:1]]
+    body = html[3:-4]
+    pat = ""
+    for p in parts:
+        if p[0] == "words":
+            pat += re.escape(htmllib.escape(p[1], quote=False))
+        elif p[0] == "junk":
+            pat += r"(?:<a[^>]*>[^<]*</a>|[^<])*?"       # not a documented spelling: anything
+        else:
+            pat += A_PAT
+    m = re.fullmatch(pat, body)
+    if m is None:
+        left = [r for r in judged if htmllib.escape(G.render_ref(r), quote=False) in body]
+        if left:
+            return [("the reference was not recognised: it is left verbatim in the text", r) for r in left]
+        return [(f"the text around the references changed or a reference is missing: {body[:160]!r}", r) for r in judged[:1]]
+    bad = []
+    g = m.groups()
+    for i, r in enumerate(refs):
+        href, t = g[2 * i], htmllib.unescape(g[2 * i + 1])
+        im = ("T", t) if href is None else ("L", t, href)
+        verdict, why = check_oracle(P, out, ctx_abs, loc, r, im, log)
+        if verdict == "fail":
+            bad.append((why, r))
+    return bad
+
+
 E2E_URLS = [None, "https://example.com/docs", None, "/srv/www/fordsite"]
 URLS = [None, None, "https://example.com/docs", None, "/srv/www/fordsite"]
 
@@ -432,7 +624,7 @@ def conv_stream(ford, drv, rng, n_projects, rep, tables, stats, replay_case=None
         prng = random.Random(rng.getrandbits(48))
         P = G.gen_project(prng, size=1 if k % 4 == 0 else 2)
         files = G.render_project(P)
-        options = {"proc_internals": "true" if P["proc_internals"] else "false", "display": P["display"]}
+        options = G.project_options(P)
         url = URLS[k % len(URLS)]
         if url is not None:
             options["project_url"] = url
@@ -496,11 +688,13 @@ def conv_stream(ford, drv, rng, n_projects, rep, tables, stats, replay_case=None
                 sp = G.spellings(prng, t)
                 prng.shuffle(sp)
                 refs += [(r, "hidden" if not t["visible"] else "exists") for r in sp[:4]]
+            for t in [e for e in P["ents"] if e["kind"] == "file"]:
+                refs += [(r, "file") for r in G.spellings(prng, t)]
             for _ in range(3):
-                nm = "nosuch" + str(prng.randint(1, 99))
+                nm = absent_name(prng)
                 refs.append(((nm, None, None, None), "absent"))
                 t = prng.choice(targets)
-                refs.append(((t["name"], None, nm, None), "absent-item"))
+                refs.append(((t["name"], None, absent_name(prng, item=True), None), "absent-item"))
                 refs.append(((nm, prng.choice(sorted(G.COMP_Q)), None, None), "absent"))
             if prng.random() < 0.5:
                 refs.append(((prng.choice(["iso_fortran_env", "iso_c_binding", "mpi"]), prng.choice([None, "extmodule"]), None, None), "intrinsic"))
@@ -527,19 +721,83 @@ def conv_stream(ford, drv, rng, n_projects, rep, tables, stats, replay_case=None
                         queries.append((what, None, free["summary"], "", r, tclass))
                     else:
                         queries.append((what, None, free["page"](c), c, r, tclass))
+            # ---- whole texts: several references, words and brackets around them (the model tokenizes them itself)
+            tctx = [x for x in chosen if x[0] == "entity"]
+            prng.shuffle(tctx)
+            tctx = tctx[:3] + [("projfile", None), ("page", "page/sub/deeper")]
+            tqueries = []    # (what, context, path, location, parts)
+            for what, c in tctx:
+                for _ in range(6):
+                    parts = gen_text(prng, refs)
+                    if what == "entity":
+                        tqueries.append((what, c, None, None, parts))
+                    elif what == "projfile":
+                        tqueries.append((what, None, free["projfile"], "", parts))
+                    else:
+                        tqueries.append((what, None, free["page"](c), c, parts))
             reqs = ["c11.conv", base, cwd] + fields
             for what, c, path, _, r, _ in queries:
                 reqs.append("|".join(["Q", str(store.idof(real[c["id"]])) if c is not None else "",
                                       str(path) if path is not None else "-", r[0], r[1] or "", r[2] or "", r[3] or ""]))
+            for what, c, path, _, parts in tqueries:
+                reqs.append("|".join(["T", str(store.idof(real[c["id"]])) if c is not None else "",
+                                      str(path) if path is not None else "-", render_text(parts)]))
             mo = drv.batch([reqs])[0]
-            if mo[0] != "ok" or len(mo) != len(queries) + 1:
+            if mo[0] != "ok" or len(mo) != len(queries) + len(tqueries) + 1:
                 rep.tie_broken(f"conv: driver answered {mo[:2]} for project {k}")
                 continue
+            for (what, c, path, loc, parts), ans in zip(tqueries, mo[1 + len(queries):]):
+                text = render_text(parts)
+                html, exc, printed = impl_convert_raw(md, text, real[c["id"]] if c is not None else None, path)
+                n_eval += 1
+                im = ("X", exc) if exc is not None else html_segments(html)
+                a = ans.split("|")
+                if a[0] == "X":
+                    model = ("X", a[1])
+                else:
+                    model = [(x[0], x[1:]) if x[0] in "PT" else ("L",) + tuple(x[1:].split(";", 1)) for x in a[1:]]
+                ckind = (c["kind"] + ("(local type)" if in_local_type(c) else "")) if c is not None else what
+                nref = sum(1 for p in parts if p[0] == "ref")
+                shape = f"text:{nref}ref" + ("+junk" if any(p[0] == "junk" for p in parts) else "") + \
+                    ("+bracket" if any(p[0] == "words" and ("[" in p[1] or "]" in p[1]) for p in parts) else "")
+                stats["form"][shape] = stats["form"].get(shape, 0) + 1
+                stats["ctx"][ckind] = stats["ctx"].get(ckind, 0) + 1
+                case = {"stream": "conv", "project": k, "files": files, "options": options, "context": ckind,
+                        "context_name": c["name"] if c is not None else None,
+                        "context_file": G.file_of(c)["name"] if c is not None else None,
+                        "path": str(path) if path is not None else None, "displayed_below_site_root": loc,
+                        "text": text, "impl": html if exc is None else ["X", exc], "model": ans}
+                if im is None or (list(im) if isinstance(im, tuple) else im) != (list(model) if isinstance(model, tuple) else model):
+                    stats["disagree"] += 1
+                    rep.tie_broken(f"correspondence conv: model {ans!r} vs implementation {(html if exc is None else exc)!r} for the text {text!r} in context {ckind}", case)
+                else:
+                    stats["distinct"].add(common.digest([ckind, shape, [p[2] for p in parts if p[0] == "ref"],
+                                                         [x[0] for x in model] if isinstance(model, list) else model]))
+                culprit = None
+                if exc is not None:
+                    # an exception aborts the whole text: the first reference that raises on its own explains it
+                    for p in parts:
+                        if p[0] == "ref" and impl_convert(md, G.render_ref(p[1]), real[c["id"]] if c is not None else None, path)[0] == "X":
+                            culprit = p[1]
+                            break
+                if culprit is not None and G.spec(P, c, culprit)[0] == "unspecified":
+                    stats["oracle"]["skip"] = stats["oracle"].get("skip", 0) + 1
+                    continue
+                bad = check_text_oracle(P, out, c, loc, parts, html, exc, printed)
+                if exc is not None:
+                    bad = [(f"conversion raised {exc}", culprit or [p[1] for p in parts if p[0] == "ref"][0])]
+                stats["oracle"]["ok" if not bad else "fail"] = stats["oracle"].get("ok" if not bad else "fail", 0) + 1
+                for why, r in bad:
+                    cls = classify(P, c, what, url is not None, r)
+                    rep.failing_input(dict(case, why=why, reference=G.render_ref(r)), cls)
+                    stats["fail_class"][str(cls)] = stats["fail_class"].get(str(cls), 0) + 1
             for (what, c, path, loc, r, tclass), ans in zip(queries, mo[1:]):
                 text = G.render_ref(r)
+                log = []
                 im = impl_convert(md, text, real[c["id"]] if c is not None else None,
-                                  path, reset=(what != "summary"))
+                                  path, reset=(what != "summary"), log=log)
                 n_eval += 1
+                stats["name_shape"][name_shape(r[0])] = stats["name_shape"].get(name_shape(r[0]), 0) + 1
                 a = ans.split("|")
                 model = tuple(a[:3]) if a[0] == "L" else tuple(a[:2])
                 ckind = (c["kind"] + ("(local type)" if in_local_type(c) else "")) if c is not None else what
@@ -561,7 +819,7 @@ def conv_stream(ford, drv, rng, n_projects, rep, tables, stats, replay_case=None
                     rep.tie_broken(f"correspondence conv: model {model} vs implementation {im} for {text} in context {ckind}", case)
                 else:
                     stats["distinct"].add(common.digest([ckind, form, tclass, im[0], r[1], r[3]]))
-                verdict, why = check_oracle(P, out, c, loc, r, im)
+                verdict, why = check_oracle(P, out, c, loc, r, im, log[0])
                 stats["oracle"][verdict] = stats["oracle"].get(verdict, 0) + 1
                 if verdict == "fail":
                     cls = classify(P, c, what, url is not None, r)
@@ -607,6 +865,135 @@ def path_stream(drv, rng, n, rep):
     return len(reqs), bad
 
 
+# ----------------------------------------------------------------------------- syntax (the pattern alone)
+
+TOKENS = ["[[", "]]", "[[", "]]", "[", "]", "(", ")", ":", ".", "-", "_", "a", "Bc", "1", "2d", "\u00e9", "\u00fc1", " ",
+          "x_y", "f90", "\u00b2", "\u00d7", "file", "(module)", ":v", "\u0101", "\u00aa"]
+KINDS_ANY = ["module", "file", "PROC", "type", "variable", "bound", "k_1", "2"]
+
+
+def word(rng):
+    """a non-empty run of word characters: letters, digits, underscores in any order (also beyond ASCII)"""
+    alpha = "abcxyzABZ0123456789__\u00e9\u00fc\u00f1\u0101"
+    return "".join(rng.choice(alpha) for _ in range(rng.choice([1, 1, 2, 3, 3, 5, 5, 8, 8, 31, 63])))
+
+
+def documented_ref(rng):
+    """(reference in a documented spelling, shape of its component name)"""
+    r = rng.random()
+    if r < 0.45:
+        name, shape = word(rng), "word"
+    elif r < 0.8:
+        name, shape = word(rng) + "." + word(rng), "stem.ext"
+    elif r < 0.9:
+        name, shape = word(rng) + "-" + word(rng) + "." + word(rng), "hyphen"
+    else:
+        name, shape = word(rng) + "." + word(rng) + "." + word(rng), "dots"
+    kind = rng.choice(KINDS_ANY) if rng.random() < 0.5 else None
+    child = word(rng) if rng.random() < 0.5 else None
+    ckind = rng.choice(KINDS_ANY) if child and rng.random() < 0.5 else None
+    return (name, kind, child, ckind), shape
+
+
+def rx_segments(rx, text):
+    """the pieces the real pattern cuts a text into (leftmost matches, as `finditer` yields them)"""
+    out, pos = [], 0
+    for m in rx.finditer(text):
+        if m.start() > pos:
+            out.append(("P", text[pos:m.start()]))
+        out.append(("R", m["name"], m["entity"], m["child_name"], m["child_entity"]))
+        pos = m.end()
+    if pos < len(text):
+        out.append(("P", text[pos:]))
+    return out
+
+
+def model_segments(ans):
+    out = []
+    for x in ans.split("|")[1:]:
+        if x[0] == "P":
+            out.append(("P", x[1:]))
+        else:
+            f = x[1:].split(";")
+            out.append(("R", f[0]) + tuple(y[1:] if y else None for y in f[1:4]))
+    return out
+
+
+def syntax_stream(ford, drv, rng, n, rep, stats):
+    """`FordLinkProcessor.LINK_RE` itself against the model's tokenizer, and against the documented syntax."""
+    import ford._markdown as fm
+
+    rx = fm.FordLinkProcessor.LINK_RE
+    # the character class
+    hi = 0x250
+    got = drv.call("c11.isword", "0", str(hi))
+    exp = "".join("1" if re.fullmatch(r"\w", chr(c)) else "0" for c in range(hi))
+    if got != ["ok", exp]:
+        diff = [hex(c) for c in range(hi) if len(got) < 2 or len(got[1]) != hi or got[1][c] != exp[c]][:8]
+        rep.tie_broken(f"correspondence syntax: the model's word-character class differs from Python's \\w at {diff}")
+    cases = []   # (text, expected pieces by the documented syntax or None, reference, name shape)
+    for _ in range(n):
+        r = rng.random()
+        if r < 0.4:
+            cases.append(("".join(rng.choice(TOKENS) for _ in range(rng.randint(1, 10))), None, None, "random"))
+            continue
+        ref, shape = documented_ref(rng)
+        text = G.render_ref(ref)
+        if r < 0.65:
+            # one edit away from a documented spelling
+            i = rng.randrange(len(text))
+            e = rng.random()
+            if e < 0.35:
+                text = text[:i] + text[i + 1:]
+            elif e < 0.7:
+                text = text[:i] + rng.choice(TOKENS) + text[i:]
+            else:
+                text = text[:i] + rng.choice(TOKENS) + text[i + 1:]
+            cases.append((text, None, None, "mutated"))
+            continue
+        pre = rng.choice(["", "", "see ", "x", "]", "(", "a: ", "1.", "\u00e9"])
+        post = rng.choice(["", "", " end", "y", "]", ")", ":", ".", "(b)", "1", "_"])
+        exp_p = ([("P", pre)] if pre else []) + [("R",) + ref] + ([("P", post)] if post else [])
+        if rng.random() < 0.3:
+            ref2, shape2 = documented_ref(rng)
+            if shape2 in ("word", "stem.ext"):
+                mid = rng.choice(["", " ", " and ", "]", ":"])
+                exp_p = exp_p[:-1] if post else exp_p
+                exp_p = exp_p + ([("P", post + mid)] if post + mid else []) + [("R",) + ref2]
+                post = post + mid + G.render_ref(ref2)
+        cases.append((pre + G.render_ref(ref) + post, exp_p, ref, shape))
+    ans = drv.batch([["c11.segments"] + [c[0] for c in cases]])[0]
+    if ans[0] != "ok" or len(ans) != len(cases) + 1:
+        rep.tie_broken(f"syntax: driver answered {ans[:2]}")
+        return 0
+    bad = 0
+    for (text, exp_p, ref, shape), a in zip(cases, ans[1:]):
+        try:
+            im = rx_segments(rx, text)
+        except Exception as e:  # noqa
+            im = [("X", f"{type(e).__name__}: {e}")]
+        mo = model_segments(a)
+        stats["syntax"][shape] = stats["syntax"].get(shape, 0) + 1
+        case = {"stream": "syntax", "text": text, "pattern": rx.pattern, "impl": im, "model": mo}
+        if im != mo:
+            bad += 1
+            if bad <= 5:
+                rep.tie_broken(f"correspondence syntax: LINK_RE cuts {text!r} into {im}, the model into {mo}", case)
+        else:
+            stats["distinct"].add(common.digest(["syntax", shape, [x[0] for x in im], len(text)]))
+        if exp_p is not None and im != exp_p:
+            # the documented syntax: component [(kind)] [:item [(kind)]] in double brackets is a reference
+            missing = [x for x in exp_p if x[0] == "R" and x not in im] or [("R",) + ref]
+            cls = None if any(name_in_pattern(x[1]) for x in missing) else "C11-file-name-outside-link-pattern"
+            stats["syntax_fail"][str(cls)] = stats["syntax_fail"].get(str(cls), 0) + 1
+            if stats["syntax_fail"][str(cls)] <= 3:     # a few per class are reported, all are counted
+                rep.failing_input(dict(case, why=f"a reference in a documented spelling is not recognised as written: expected {exp_p}",
+                                       reference=G.render_ref(missing[0][1:])), cls)
+            stats["fail_class"][str(cls)] = stats["fail_class"].get(str(cls), 0) + 1
+    stats["disagree"] += bad
+    return len(cases)
+
+
 # ----------------------------------------------------------------------------- e2e
 
 def e2e_stream(ford, rng, n_projects, rep, stats):
@@ -637,7 +1024,7 @@ def e2e_stream(ford, rng, n_projects, rep, stats):
                  "sub/index.md": "---\ntitle: Sub\n---\n\n" + put(None, "page:page/sub") + "\n",
                  "sub/leaf.md": "---\ntitle: Leaf\n---\n\n" + put(None, "page:page/sub") + "\n\nverbatim `[[nosuch]]` span\n"}
         files = G.render_project(P)
-        options = {"proc_internals": "true" if P["proc_internals"] else "false", "display": P["display"]}
+        options = G.project_options(P)
         url = E2E_URLS[k % len(E2E_URLS)]
         if url is not None:
             options["project_url"] = url
@@ -750,22 +1137,28 @@ def run(tier: str, seed: int, replay: str | None = None) -> int:
             tables.update(T.extract())
         except Exception as e:  # noqa
             raise common.Infra(f"tables unavailable: {e}")
+    NAME_SHAPE["seps"], NAME_SHAPE["many"] = list(tables["linkNameSeps"]), bool(tables["linkNameMany"])
     rng = random.Random(seed * 104729 + 11)
     drv = Driver()
     n_proj = 40 if tier == "quick" else 400
     n_e2e = 6 if tier == "quick" else 40
     stats = {"project_url": {}, "ctx": {}, "target": {}, "form": {}, "outcome": {}, "kinds": {}, "oracle": {}, "fail_class": {},
-             "code": {}, "e2e_pages": {}, "e2e_project_url": {}, "samples": [], "distinct": set(), "disagree": 0}
+             "code": {}, "e2e_pages": {}, "e2e_project_url": {}, "samples": [], "distinct": set(), "disagree": 0,
+             "syntax": {}, "name_shape": {}, "syntax_fail": {}}
     n_path, bad_path = path_stream(drv, rng, 2000 if tier == "quick" else 20000, rep)
     n_conv = conv_stream(ford, drv, rng, n_proj, rep, tables, stats)
+    n_syn = syntax_stream(ford, drv, random.Random(seed * 7919 + 3), 6000 if tier == "quick" else 60000, rep, stats)
     n_e = e2e_stream(ford, rng, n_e2e, rep, stats)
     rep.coverage.update(
-        evaluations=n_conv + n_e + n_path,
+        evaluations=n_conv + n_e + n_path + n_syn,
         distinct_nontrivial=len(stats["distinct"]),
         rule="one evaluation = one (project, context, reference) converted by the real MetaMarkdown/convert_link and by the model; "
              "non-trivial = distinct (context kind, reference form, target class, outcome, qualifiers) on which both agree",
         samples=stats["samples"],
-        traces_validated_against_impl=n_conv + n_path,
+        traces_validated_against_impl=n_conv + n_path + n_syn,
+        syntax_cases=dict(sorted(stats["syntax"].items())),
+        component_name_shapes=dict(sorted(stats["name_shape"].items())),
+        link_pattern={"name_separators": NAME_SHAPE["seps"], "name_tail_repeats": NAME_SHAPE["many"]},
         correspondence_disagreements=stats["disagree"] + bad_path,
         project_url_histogram=stats["project_url"],
         context_histogram=dict(sorted(stats["ctx"].items())),
@@ -783,7 +1176,9 @@ def run(tier: str, seed: int, replay: str | None = None) -> int:
         visibility_model_mismatch=stats.get("visibility_model_mismatch", 0),
     )
     rep.assumptions += [
-        "Python-Markdown's inline-pattern machinery (priorities, code-span protection) and LINK_RE matching are on the implementation side only",
+        "Python-Markdown's inline-pattern machinery (priorities, code-span protection, escapes) is on the implementation side only; "
+        "LINK_RE and the apply-until-no-match loop are modelled (LinkSyntax.lean) and compared on every run",
+        "characters above U+024F are not generated (the model's word-character class is exact below)",
         "the entity store handed to the model is abstracted from FORD's correlated objects (parsing/correlation are C01/C07)",
         "identifiers (`ident`, NameSelector) are inputs of the model (property C10)",
         "external projects are not generated (C16); intrinsic modules are",
